@@ -30,6 +30,21 @@ CHECKS = {
          "Every operation of every generated edit history is applied to a DenseGraph, a SparseGraph and a bit-matrix model; after each operation N, M, IsEdge (all ordered pairs), Neighbours and Degrees of every live graph (sources, copies, induced subgraphs) are compared with the models, so aliasing and stale cached counts surface at the first operation that exposes them. All histories of length <= 4 (5 thorough) from 8 small start graphs are enumerated; seeded histories reach n = 12 (40 thorough). Holds on what was observed.",
          "Trusts the harness model rg.G; argument domain: valid indices, neighbour / vertex lists without repeats.",
          "DESIGN.md section 4 C05"),
+ "C06": ("exploration",
+         "runtime monitoring: well-formedness checker on every returned graph + independent edge-set definition per family + aliasing probes (caller mutates its slices afterwards), on dense, sparse and live views",
+         "Every constructor, generator, decoder and transformation is called over parameter grids from the smallest accepted size to ~40 vertices (~250 thorough), all labelled graphs n <= 5, all classes n = 6 (7), seeded graphs and all Pruefer codes n <= 6 (8); each result must be symmetric, loop-free, with M / Degrees / Neighbours equal to its adjacency, and equal to the independent definition of its family (labelled where the documentation fixes the numbering, up to isomorphism otherwise); graphs built from caller slices are re-observed after the caller overwrites them.",
+         "Trusts the reference definitions in props/c06/ref.go (self-checked on group orders, edge counts, Cayley's formula) and rg.Conforms. Parameters outside the documented domains are not called.",
+         "DESIGN.md section 4 C06"),
+ "C07": ("exploration",
+         "runtime monitoring: reference codec written from the format definitions (graph6, sparse6 in nauty's pair order with both padding rules, Multicode, Pruefer) compared per call; strict spec reader on every encoder output",
+         "For all labelled graphs n <= 5, all classes n = 6, 7 (8) x relabellings, every n in 0..70, powers of two, n up to 300, graph6 at n = 4096, sparse6 at n = 65535..262145 (4- and 8-byte headers, neighbour lists only), decode(encode(g)) == g with and without headers, encoder bytes in range, graph6 and sparse6 strings equal to the reference encoder, the spec reader must read the library's sparse6 as exactly g with no loop or repeated edge; all Pruefer codes n <= 7 (8) both compositions; Multicode single and all concatenations of <= 3 records incl. n = 0, 1.",
+         "Trusts the reference codec (7 self-checks incl. the formats.txt examples, Sage's Petersen strings and the repo's own test strings).",
+         "DESIGN.md section 4 C07"),
+ "C08": ("exploration",
+         "runtime monitoring with hostile inputs: exhaustive short strings, mutated / truncated valid encodings, synthesised sparse6 bit streams; outcome oracle (error or well-formed graph of the declared order, re-encode/decode stable); CPU watchdog for non-termination",
+         "All strings of length <= 2 over 256 bytes in 6 framings, all strings of length 3-4 (5) over a 14-byte hostile alphabet, all 12-bit sparse6 streams for n <= 17, every truncation / boundary-byte substitution / trailing garbage of hundreds of valid encodings, seeded pair streams with every last-byte fill, 1-, 4- and 8-byte headers with inconsistent n (declared n <= 4096): each call must return (no panic, no budget overrun) an error or a well-formed graph on the declared number of vertices for which decode(encode(.)) is the identity.",
+         "Trusts the harness header parser and rg.WellFormed; what a hostile string decodes to is recorded, not judged.",
+         "DESIGN.md section 4 C08"),
  "C09": ("exploration",
          "runtime monitoring: brute-force value oracles and definition-based witness checkers per call, across relabellings and five representations (dense, sparse, induced view, complement views)",
          "Every listed function is called on every class n <= 7 (8 thorough) x 6 labellings x 5 representations, on 57 named families with published values and on seeded graphs up to 13 vertices: values must equal brute force; colourings proper with exactly chi colours; edge colourings proper with exactly chi' colours in 1..chi' and 0 on non-edges; maximal cliques exactly the set, each once, channel closed (bounded receive); IsKColorable for all k in 0..n+1; polynomial evaluated at k = 0..n+1 = number of proper k-colourings; GreedyColor = reference first fit on all orders (n <= 5); degeneracy order certificate.",
